@@ -98,7 +98,7 @@ Theorem c01_roundtrip_partial :
   length pds = length L ->
   (forall pd, In pd pds ->
      Reconstruct.data_len (snd pd) = length (map fst cq) * length (Reconstruct.pgroups (fst pd))) ->
-  (forall pd, In pd pds -> length (Reconstruct.plookup (fst pd)) = nobs /\ Reconstruct.locs_ok (fst pd)) ->
+  (forall pd, In pd pds -> length (Reconstruct.plookup (fst pd)) = nobs /\ locs_wf (fst pd)) ->
   (forall pd key, In pd pds -> In key (Reconstruct.keys_of (snd pd)) ->
      Reconstruct.outcome_to_int pyint0 key = Some (den key)) ->
   (forall li pd sfx z s k,
@@ -124,7 +124,7 @@ Theorem c01_roundtrip_generated_partial :
   length pds = length L ->
   (forall pd, In pd pds ->
      Reconstruct.data_len (snd pd) = length (map fst cq) * length (Reconstruct.pgroups (fst pd))) ->
-  (forall pd, In pd pds -> length (Reconstruct.plookup (fst pd)) = nobs /\ Reconstruct.locs_ok (fst pd)) ->
+  (forall pd, In pd pds -> length (Reconstruct.plookup (fst pd)) = nobs /\ locs_wf (fst pd)) ->
   (forall pd key, In pd pds -> In key (Reconstruct.keys_of (snd pd)) ->
      Reconstruct.outcome_to_int pyint0 key = Some (den key)) ->
   (forall li pd sfx z s k,
@@ -157,7 +157,7 @@ Theorem c01_generated_exact_results :
   forall gh gsx env run den (C : list (list Q)) table (W : sdict) nobs lg le rp z s k,
   entry_ok gh gsx env table (sort_samples W) lg le ->
   length (Reconstruct.pgroups rp) = length (snd lg) ->
-  length (Reconstruct.plookup rp) = nobs -> Reconstruct.locs_ok rp ->
+  length (Reconstruct.plookup rp) = nobs -> locs_wf rp ->
   nth_error (sort_samples W) z = Some s -> length (s_ids s) = length C -> k < nobs ->
   Reconstruct.E den (rp, Reconstruct.DV1 (map run (snd le))) z k
   = E_gen gh gsx env run den rp (pinfo_of table (fst lg)) (snd lg)
@@ -173,7 +173,7 @@ Theorem c01_generated_roundtrip_partial :
   core gh gsx env C table og W = Ok (out, cq) ->
   forall (rparts : list Reconstruct.part) (nobs : nat),
   Forall2 (fun lg rp => length (Reconstruct.pgroups rp) = length (snd lg)) og rparts ->
-  (forall rp, In rp rparts -> length (Reconstruct.plookup rp) = nobs /\ Reconstruct.locs_ok rp) ->
+  (forall rp, In rp rparts -> length (Reconstruct.plookup rp) = nobs /\ locs_wf rp) ->
   forall full, Forall2 (entry_ok gh gsx env table (sort_samples W)) og full ->
   forall (term : jkey -> nat -> Q) (Ev : nat -> Q) pyint0,
   (forall k, k < nobs ->
@@ -217,7 +217,7 @@ Theorem c01_generated_roundtrip_dict_partial :
        nth_error (L_of (length C) (table_of d M) og) li = Some (suffixes (mdata qc))) /\
     forall (rparts : list Reconstruct.part) (nobs : nat) (term : jkey -> nat -> Q) (Ev : nat -> Q) pyint0,
     Forall2 (fun lg rp => length (Reconstruct.pgroups rp) = length (snd lg)) og rparts ->
-    (forall rp, In rp rparts -> length (Reconstruct.plookup rp) = nobs /\ Reconstruct.locs_ok rp) ->
+    (forall rp, In rp rparts -> length (Reconstruct.plookup rp) = nobs /\ locs_wf rp) ->
     (forall k, k < nobs ->
        (Ev k == sumQ (map (fun ids => (coeff_prod C ids * term ids k)%Q) (all_maps (map (@length Q) C))))%Q) ->
     (forall ids k, In ids (all_maps (map (@length Q) C)) -> k < nobs ->
@@ -242,7 +242,7 @@ Theorem c01_generated_roundtrip_single_partial :
     let og := [(label_A, groups)] in
     forall (rp : Reconstruct.part) (nobs : nat) (term : jkey -> nat -> Q) (Ev : nat -> Q) pyint0,
     length (Reconstruct.pgroups rp) = length groups ->
-    length (Reconstruct.plookup rp) = nobs -> Reconstruct.locs_ok rp ->
+    length (Reconstruct.plookup rp) = nobs -> locs_wf rp ->
     (forall k, k < nobs ->
        (Ev k == sumQ (map (fun ids => (coeff_prod C ids * term ids k)%Q) (all_maps (map (@length Q) C))))%Q) ->
     (forall ids k, In ids (all_maps (map (@length Q) C)) -> k < nobs ->
@@ -254,6 +254,28 @@ Theorem c01_generated_roundtrip_single_partial :
     Reconstruct.res_Qeq (Reconstruct.reconstruct_parts pyint0 nobs (map fst cq) [(rp, Reconstruct.DV1 (map run l))])
                         (Ok (map Ev (seq 0 nobs))).
 Proof. exact generated_roundtrip_single. Qed.
+
+(* the chain on the weights dictionary that the C04 model returns for an infinite budget (c04_infinite /
+   c01_weights_from_c04): the hypothesis exact_weights is discharged, no_subcutoff_map C remains *)
+Theorem c01_generated_roundtrip_c04_partial :
+  forall gh gsx env run den (C : list (list Q)) table og out (cq : list (Q * wkind)),
+  no_subcutoff_map C ->
+  core gh gsx env C table og (of_wdict (Weights.all_exact (probs_of C) 1)) = Ok (out, cq) ->
+  forall (rparts : list Reconstruct.part) (nobs : nat),
+  Forall2 (fun lg rp => length (Reconstruct.pgroups rp) = length (snd lg)) og rparts ->
+  (forall rp, In rp rparts -> length (Reconstruct.plookup rp) = nobs /\ locs_wf rp) ->
+  forall full, Forall2 (entry_ok gh gsx env table (sort_samples (of_wdict (Weights.all_exact (probs_of C) 1)))) og full ->
+  forall (term : jkey -> nat -> Q) (Ev : nat -> Q) pyint0,
+  (forall k, k < nobs ->
+     (Ev k == sumQ (map (fun ids => (coeff_prod C ids * term ids k)%Q) (all_maps (map (@length Q) C))))%Q) ->
+  (forall ids k, In ids (all_maps (map (@length Q) C)) -> k < nobs ->
+     (term ids k == part_prod (L_of (length C) table og) (E_all gh gsx env run den table og rparts) ids k)%Q) ->
+  (forall v, In v C -> ~ (kappa_of v == 0)%Q) ->
+  (forall pd key, In pd (results_of run rparts full) -> In key (Reconstruct.keys_of (snd pd)) ->
+     Reconstruct.outcome_to_int pyint0 key = Some (den key)) ->
+  Reconstruct.res_Qeq (Reconstruct.reconstruct_parts pyint0 nobs (map fst cq) (results_of run rparts full))
+                      (Ok (map Ev (seq 0 nobs))).
+Proof. exact generated_roundtrip_c04. Qed.
 
 (* the two steps separately: the postulates turn the uncut value into the cut value ... *)
 Theorem c01_expansion :
@@ -294,7 +316,7 @@ Theorem c01_roundtrip_public_partial :
   (forall l, In l (map Reconstruct.plabel (p0 :: ps)) <-> In l (map fst m)) ->
   (forall p x, In p (p0 :: ps) -> In x (Reconstruct.pphases p) -> x = 0) ->
   length (p0 :: ps) = length L ->
-  (forall p, In p (p0 :: ps) -> length (Reconstruct.plookup p) = nobs /\ Reconstruct.locs_ok p) ->
+  (forall p, In p (p0 :: ps) -> length (Reconstruct.plookup p) = nobs /\ locs_wf p) ->
   (forall p d, In p (p0 :: ps) -> Reconstruct.assoc m (Reconstruct.plabel p) = Some d ->
      Reconstruct.data_len d = length (map fst cq) * length (Reconstruct.pgroups p) /\
      (forall key, In key (Reconstruct.keys_of d) -> Reconstruct.outcome_to_int pyint0 key = Some (den key))) ->
@@ -321,7 +343,7 @@ Theorem c01_unseparated_partial :
           (sort_samples W) cq ->
   (forall x, In x (Reconstruct.pphases p) -> x = 0) ->
   Reconstruct.data_len d = length (map fst cq) * length (Reconstruct.pgroups p) ->
-  length (Reconstruct.plookup p) = nobs -> Reconstruct.locs_ok p ->
+  length (Reconstruct.plookup p) = nobs -> locs_wf p ->
   (forall key, In key (Reconstruct.keys_of d) -> Reconstruct.outcome_to_int pyint0 key = Some (den key)) ->
   (forall z s k, nth_error (sort_samples W) z = Some s -> k < nobs ->
      (Reconstruct.E den (p, d) z k == E0 (s_ids s) k)%Q) ->
@@ -340,8 +362,11 @@ Proof. exact project_identity. Qed.
         (value computed with the code's coefficients) * (1 - delta) = Ev k - lost k;
         |lost k| <= D * cutoff * kappa * B     whenever |term ids k| <= B on the omitted maps.
       Hence |computed - Ev| <= (delta |Ev| + D cutoff kappa B) / (1 - delta): of order D * 1e-14 * kappa.
-      (c01_roundtrip_partial itself assumes no such map: exact_weights.) *)
-Theorem c01_subcutoff :
+      (c01_roundtrip_partial itself assumes no such map: exact_weights.)
+      NOTE (_partial): conjunct 2 is an identity about the EXPRESSION sum_{s in W} coeff_value(..) * part_prod L E (s_ids s) k —
+      the estimator's sum written with the code's coefficient formula —, not about the output of `core` /
+      reconstruct_parts; it uses P1 and P2+P3; the final bound |computed - Ev| <= .. is a consequence left in this comment. *)
+Theorem c01_subcutoff_partial :
   forall (C : list (list Q)) (L : list (list nat)) (nobs : nat) (term : jkey -> nat -> Q) (Ev : nat -> Q)
          (E : nat -> jkey -> nat -> Q),
   (forall k, k < nobs ->
@@ -393,6 +418,17 @@ Theorem c01_idle_refusal :
   In p ps -> q < n -> nth q (labels_used n c labels) None = None -> nth q (plets p) 0 <> 0 ->
   res_bind (partition_problem basis_of relabel dx n ncl ncr c labels (Some ps)) rest <> Ok v.
 Proof. intros A. exact (@idle_refusal A). Qed.
+
+(* sharper: the first stage answers Refused (ValueError) — unless an earlier stage of partition_problem itself crashed *)
+Theorem c01_idle_refused :
+  forall basis_of relabel dx n ncl ncr c labels ps p q,
+  In p ps -> q < length (labels_used n c labels) ->
+  nth q (labels_used n c labels) None = None -> nth q (plets p) 0 <> 0 ->
+  partition_problem basis_of relabel dx n ncl ncr c labels (Some ps) = Refused \/
+  partition_circuit_qubits basis_of n c (labels_used n c labels) = Crashed \/
+  exists qc, partition_circuit_qubits basis_of n c (labels_used n c labels) = Ok qc /\
+             Separate.separate_circuit n [] (dx (fst (number_qpd relabel qc 0))) (Some (labels_used n c labels)) = Crashed.
+Proof. exact idle_refused. Qed.
 
 Theorem c01_idle_rule : forall ls ps,
   (forall p q, In p ps -> q < length ls -> nth q ls None = None -> nth q (plets p) 0 <> 0 ->
@@ -550,7 +586,7 @@ Example c01_ex_results :
   length Ex.pds = length Ex.L /\
   (forall pd, In pd Ex.pds ->
      Reconstruct.data_len (snd pd) = length (map fst Ex.cq) * length (Reconstruct.pgroups (fst pd))) /\
-  (forall pd, In pd Ex.pds -> length (Reconstruct.plookup (fst pd)) = 3 /\ Reconstruct.locs_ok (fst pd)) /\
+  (forall pd, In pd Ex.pds -> length (Reconstruct.plookup (fst pd)) = 3 /\ locs_wf (fst pd)) /\
   (forall pd key, In pd Ex.pds -> In key (Reconstruct.keys_of (snd pd)) ->
      Reconstruct.outcome_to_int Reconstruct.pyint0_ref key = Some (Ex.den key)) /\
   (forall li pd sfx z s k,
@@ -560,7 +596,9 @@ Example c01_ex_results :
 Proof.
   split; [reflexivity|split; [|split; [|split]]].
   - intros pd [<-|[<-|[]]]; vm_compute; reflexivity.
-  - intros pd [<-|[<-|[]]]; (split; [reflexivity|]); intros locs m n HL HM; cbn in HL;
+  - intros pd [<-|[<-|[]]]; (split; [reflexivity|]);
+      (split; [|intros locs HL; cbn in HL; repeat (destruct HL as [<-|HL]; [discriminate|]); destruct HL]);
+      intros locs m n HL HM; cbn in HL;
       repeat (destruct HL as [<-|HL]; [cbn in HM; repeat (destruct HM as [HM|HM]; [inversion HM; subst; cbn; lia|]); destruct HM|]);
       destruct HL.
   - intros pd key [<-|[<-|[]]] HK; vm_compute in HK;
@@ -626,7 +664,7 @@ Example c01_ex_generated :
     Forall2 (entry_ok 20 21 Ex2.env (table_of Ex2.d M) (sort_samples Ex2.W)) og full /\
     L_of (length Ex2.C) (table_of Ex2.d M) og = [[0; 1; 1]; [0]] /\
     Forall2 (fun lg rp => length (Reconstruct.pgroups rp) = length (snd lg)) og Ex2.rparts /\
-    (forall rp, In rp Ex2.rparts -> length (Reconstruct.plookup rp) = 2 /\ Reconstruct.locs_ok rp) /\
+    (forall rp, In rp Ex2.rparts -> length (Reconstruct.plookup rp) = 2 /\ locs_wf rp) /\
     (forall v, In v Ex2.C -> ~ (kappa_of v == 0)%Q) /\ exact_weights Ex2.C Ex2.W /\
     Reconstruct.res_Qeq
       (Reconstruct.reconstruct_parts Reconstruct.pyint0_ref 2 (map fst cq) (results_of Ex2.run Ex2.rparts full))
@@ -649,8 +687,10 @@ Proof.
     - intros ids Hin _. vm_compute in Hin. vm_compute. tauto. }
   assert (G1 : Forall2 (fun lg rp => length (Reconstruct.pgroups rp) = length (snd lg))
                  [(7, [mkOG [3; 1] [0; 1]]); (9, [mkOG [0] []; mkOG [2] [0]])] Ex2.rparts) by (repeat constructor).
-  assert (G2 : forall rp, In rp Ex2.rparts -> length (Reconstruct.plookup rp) = 2 /\ Reconstruct.locs_ok rp).
-  { intros rp [<-|[<-|[]]]; (split; [reflexivity|]); intros locs m n HLo HMn; cbn in HLo;
+  assert (G2 : forall rp, In rp Ex2.rparts -> length (Reconstruct.plookup rp) = 2 /\ locs_wf rp).
+  { intros rp [<-|[<-|[]]]; (split; [reflexivity|]);
+      (split; [|intros locs HLo; cbn in HLo; repeat (destruct HLo as [<-|HLo]; [discriminate|]); destruct HLo]);
+      intros locs m n HLo HMn; cbn in HLo;
       repeat (destruct HLo as [<-|HLo]; [cbn in HMn; repeat (destruct HMn as [HMn|HMn]; [inversion HMn; subst; cbn; lia|]); destruct HMn|]);
       destruct HLo. }
   exists dd, cq. eexists. eexists. exists full. split; [reflexivity|split; [exact HM|split; [exact Hog|split; [exact HF|]]]].
@@ -670,11 +710,161 @@ Proof.
     apply in_map_iff in Hqd as (e & <- & _). apply (Hrun e). now apply in_map.
 Qed.
 
-(* a dropped-map instance for c01_subcutoff: listing only five of the six maps loses exactly the sixth term *)
+(* NON-VACUITY OF THE CHAIN WITH REAL PHYSICS: the same problem  h 0 ; cx 0 1  cut between A | B, but now the
+   subexperiments are the ones the C05 MODEL GENERATES (generate on the two subcircuits with their one-qubit
+   placeholders, the cx basis of Model/Bases.v as the basis environment), `run` is the C13 model of ExactSampler over the
+   exact simulator Common/QSim.v applied to each generated circuit, E_all is the C06 decode of those results, and
+   Ev / term are the PTM values of Common/Ptm.v (Ex.Ev, Ex.term_).  P1 was checked in c01_hyps_satisfiable; here
+   P2+P3 OVER THE GENERATED CIRCUITS is checked by computation, and the chain theorem yields <ZZ>, <XX>, <IZ> = 1, 1, 0. *)
+Module Ex3.
+  Definition bop_of (o : op1) : bop :=
+    match o with OH => BGate 1 | OSdg => BGate 2 | OS => BGate 3 | OZ => BGate 4 | OMeas => BMeas | _ => BReset end.
+  Definition env : benv := [map (fun m => (map bop_of (Ex.s0_of m), map bop_of (Ex.s1_of m))) (seq 0 6)].
+  Definition L0 : qlabel := Some (0, Some 0).
+  Definition cA : mcirc := mkMC 1 0 [] [ mkI (Gate 1) [0] []; mkI (Qpd1 0 0 None L0) [0] [] ].     (* h ; control half *)
+  Definition cB : mcirc := mkMC 1 0 [] [ mkI (Qpd1 0 1 None L0) [0] [] ].                           (* target half *)
+  Definition d : list (nat * mcirc) := [(0, cA); (1, cB)].
+  Definition od : list (nat * res (list ogroup)) :=
+    [ (0, Ok [mkOG [3] [0]; mkOG [1] [0]]); (1, Ok [mkOG [3] [0]; mkOG [1] [0]]) ].      (* a Z group and an X group each *)
+  (* the exact sampler on a generated circuit: interned gate ids -> QSim gates (20 / 21 are the H / SX of the
+     measurement rotations), then the C13 model *)
+  Definition qgate_of (g : nat) : option qgate :=
+    match g with 1 => Some Gh | 2 => Some Gsdg | 3 => Some Gs | 4 => Some Gz | 20 => Some Gh | 21 => Some Gsx | _ => None end.
+  Definition pinstr_of (i : instr) : list (pinstr qgate) :=
+    match iop i, iqs i, ics i with
+    | Gate g, qs, _ => match qgate_of g with Some q => [PGate q qs] | None => [] end
+    | Measure, [q], [c] => [PMeasure q c]
+    | Reset, [q], _ => [PReset q]
+    | _, _, _ => []
+    end.
+  Definition run (e : mcirc) : list (Reconstruct.key * Q) :=
+    match qsimulate (1 # 10000000000000000)%Q (mnq e) (flat_map pinstr_of (mdata e)) with
+    | Ok l => map (fun kp => (Reconstruct.KInt (fst kp), snd kp)) l
+    | _ => []
+    end.
+  Definition rparts : list Reconstruct.part := [Ex.pA; Ex.pB].
+  Definition M : mapping := [(0, ([[1]], [0])); (1, ([[0]], [0]))].
+  Definition og : list (nat * list ogroup) := [(0, [mkOG [3] [0]; mkOG [1] [0]]); (1, [mkOG [3] [0]; mkOG [1] [0]])].
+End Ex3.
+
+Example c01_ex_chain :
+  exists dd cq M og full,
+    generate 20 21 Ex3.env Ex.C (CDict Ex3.d) (ODict Ex3.od) NPosInf Ex.W = Ok (OutDict dd, cq) /\
+    mapping_by_partition Ex3.d = Ok M /\ all_groups Ex3.od = Ok og /\
+    dd = full /\ L_of 1 (table_of Ex3.d M) og = [[0]; [0]] /\
+    (* P2+P3 over the circuits the model generates, by computation *)
+    (forall ids k, In ids (all_maps (map (@length Q) Ex.C)) -> k < 3 ->
+       (Ex.term_ ids k == part_prod (L_of 1 (table_of Ex3.d M) og)
+                                    (E_all 20 21 Ex3.env Ex3.run Ex.den (table_of Ex3.d M) og Ex3.rparts) ids k)%Q) /\
+    Reconstruct.res_Qeq
+      (Reconstruct.reconstruct_parts Reconstruct.pyint0_ref 3 (map fst cq) (results_of Ex3.run Ex3.rparts full))
+      (Ok (map Ex.Ev (seq 0 3))) /\
+    Reconstruct.reconstruct_parts Reconstruct.pyint0_ref 3 (map fst cq) (results_of Ex3.run Ex3.rparts full) = Ok [1; 1; 0]%Q.
+Proof.
+  destruct (generate 20 21 Ex3.env Ex.C (CDict Ex3.d) (ODict Ex3.od) NPosInf Ex.W) as [[[l|dd] cq]| |] eqn:Eg;
+    try (vm_compute in Eg; discriminate).
+  assert (EC : map (fun b => nth b Ex.C []) (bases_by_partition Ex3.d) = Ex.C) by reflexivity.
+  destruct (c01_generated_roundtrip_dict_partial _ _ _ _ _ _ _ _ _ _ Ex3.run Ex.den Eg)
+    as (M & og & full & HM & Hog & Hdd & HF & HL & Hmain).
+  rewrite EC in Hmain.
+  assert (EM : M = Ex3.M) by (vm_compute in HM; now inversion HM).
+  assert (Eog : og = Ex3.og) by (vm_compute in Hog; now inversion Hog).
+  subst M og.
+  destruct c01_hyps_satisfiable as (P1 & _ & _).
+  destruct c01_ex_bookkeeping as (Hk & HW & _ & _).
+  destruct c01_ex_results as (_ & _ & G2' & _ & _).
+  assert (G1 : Forall2 (fun lg rp => length (Reconstruct.pgroups rp) = length (snd lg)) Ex3.og Ex3.rparts) by (repeat constructor).
+  assert (G2 : forall rp, In rp Ex3.rparts -> length (Reconstruct.plookup rp) = 3 /\ locs_wf rp).
+  { intros rp [<-|[<-|[]]]; [apply (G2' (Ex.pA, Ex.data Ex.exp_A))|apply (G2' (Ex.pB, Ex.data Ex.exp_B))]; cbn; auto. }
+  assert (P23 : forall ids k, In ids (all_maps (map (@length Q) Ex.C)) -> k < 3 ->
+     (Ex.term_ ids k == part_prod (L_of 1 (table_of Ex3.d Ex3.M) Ex3.og)
+                                  (E_all 20 21 Ex3.env Ex3.run Ex.den (table_of Ex3.d Ex3.M) Ex3.og Ex3.rparts) ids k)%Q).
+  { intros ids k Hin Hlt. vm_compute in Hin.
+    repeat (destruct Hin as [<-|Hin]; [destruct k as [|[|[|k]]]; [vm_compute; reflexivity..|lia]|]). destruct Hin. }
+  assert (Hkeys : forall pd key, In pd (results_of Ex3.run Ex3.rparts full) -> In key (Reconstruct.keys_of (snd pd)) ->
+            Reconstruct.outcome_to_int Reconstruct.pyint0_ref key = Some (Ex.den key)).
+  { intros [rp dta] key Hpd Hkey. unfold results_of in Hpd. apply in_combine_r in Hpd. apply in_map_iff in Hpd as (le & <- & _).
+    cbn [snd Reconstruct.keys_of] in Hkey.
+    apply in_map_iff in Hkey as (kp & <- & Hkp). apply in_concat in Hkp as (qd & Hqd & Hkp).
+    apply in_map_iff in Hqd as (e & <- & _). unfold Ex3.run in Hkp.
+    destruct (qsimulate _ _ _) as [r| |]; [|destruct Hkp..]. apply in_map_iff in Hkp as (kq & <- & _). reflexivity. }
+  pose proof (Hmain Ex3.rparts 3 Ex.term_ Ex.Ev Reconstruct.pyint0_ref G1 G2 P1 P23 Hk HW Hkeys) as Hres.
+  assert (Efull : dd = full).
+  { rewrite Hdd. clear -HF. symmetry.
+    inversion HF as [|lg1 le1 og1 f1 H1 HF1]; subst. inversion HF1 as [|lg2 le2 og2 f2 H2 HF2]; subst. inversion HF2; subst.
+    destruct H1 as (_ & C1 & _), H2 as (_ & C2 & _). cbn [filter].
+    rewrite C1, C2. reflexivity. }
+  exists dd, cq. eexists. eexists. exists full.
+  split; [reflexivity|split; [exact HM|split; [exact Hog|split; [exact Efull|split; [reflexivity|split; [exact P23|split; [exact Hres|]]]]]]].
+  (* the value itself, by running the models *)
+  assert (Ecq : map fst cq = map fst Ex.cq /\ full = dd) by (split; [vm_compute in Eg; inversion Eg; reflexivity|now symmetry]).
+  destruct Ecq as (-> & ->). vm_compute in Eg. inversion Eg; subst dd. vm_compute. reflexivity.
+Qed.
+
+(* a dropped-map instance for c01_subcutoff_partial: listing only five of the six maps loses exactly the sixth term *)
 Example c01_ex_dropped :
   dropped Ex.C (firstn 5 Ex.W) = [[5]] /\
   (lost Ex.C Ex.term_ (firstn 5 Ex.W) 0 == - (1 # 2) * Ex.term_ [5%nat] 0)%Q.
 Proof. split; vm_compute; reflexivity. Qed.
+
+(* c01_subcutoff_partial applied: five of the six maps listed, cut-off 1/6 — total weight 5/6, lost = the sixth term *)
+Example c01_ex_subcutoff :
+  let W5 := firstn 5 Ex.W in
+  ((sumQ (map s_w W5) == 1 - sumQ (map (joint_prob (probs_of Ex.C)) (dropped Ex.C W5)))%Q /\
+   (sumQ (map (joint_prob (probs_of Ex.C)) (dropped Ex.C W5)) <= inject_Z (Z.of_nat (length (dropped Ex.C W5))) * (1 # 6))%Q) /\
+  (sumQ (map (fun s => (coeff_value (total_weight W5) (kappa_all Ex.C) (s_w s)
+                          (map (fun p => nth (snd p) (fst p) 0%Q) (combine Ex.C (s_ids s)))
+                        * part_prod Ex.L Ex.E_ (s_ids s) 0)%Q) W5)
+   * sumQ (map s_w W5) == Ex.Ev 0 - lost Ex.C Ex.term_ W5 0)%Q.
+Proof.
+  intros W5. destruct c01_hyps_satisfiable as (P1 & P23 & _). destruct c01_ex_bookkeeping as (Hk & _).
+  assert (Hnd : NoDup (map s_ids W5)) by (vm_compute; repeat constructor; simpl; intuition discriminate).
+  assert (Hl : forall s, In s W5 -> In (s_ids s) (all_maps (map (@length Q) Ex.C)) /\
+                                   (s_w s == joint_prob (probs_of Ex.C) (s_ids s))%Q).
+  { intros s Hs. vm_compute in Hs.
+    repeat (destruct Hs as [<-|Hs]; [split; [vm_compute; tauto|vm_compute; reflexivity]|]). destruct Hs. }
+  assert (Hd : forall ids, In ids (dropped Ex.C W5) -> (joint_prob (probs_of Ex.C) ids <= 1 # 6)%Q).
+  { intros ids Hi. vm_compute in Hi. destruct Hi as [<-|[]]. vm_compute. discriminate. }
+  destruct (c01_subcutoff_partial Ex.C Ex.L 3 Ex.term_ Ex.Ev Ex.E_ P1 P23 Hk W5 (1 # 6)%Q Hnd Hl Hd) as ((T1 & _ & T3) & Hid & _).
+  split; [split; [exact T1|exact T3]|]. apply Hid; [lia|vm_compute; reflexivity].
+Qed.
+
+(* c01_weights_from_c04 applied to the cx basis: the C04 model returns all six maps with probability 1/6 *)
+Example c01_ex_weights_from_c04 :
+  no_subcutoff_map Ex.C /\
+  Weights.gen_weights (probs_of Ex.C) [] Weights.PInf [] = Some (Ok (Weights.all_exact (probs_of Ex.C) 1)) /\
+  exact_weights Ex.C (of_wdict (Weights.all_exact (probs_of Ex.C) 1)) /\
+  length (Weights.all_exact (probs_of Ex.C) 1) = 6.
+Proof.
+  assert (Hno : no_subcutoff_map Ex.C).
+  { intros ids Hin. vm_compute in Hin. right.
+    repeat (destruct Hin as [<-|Hin]; [vm_compute; discriminate|]). destruct Hin. }
+  destruct (c01_weights_from_c04 Ex.C [] [] Hno) as (H1 & H2).
+  - repeat constructor; vm_compute; discriminate.
+  - repeat constructor. exists (nth 0 (nth 0 (probs_of Ex.C) []) 0%Q). split; [left; reflexivity|vm_compute; reflexivity].
+  - split; [exact Hno|split; [exact H1|split; [exact H2|vm_compute; reflexivity]]].
+Qed.
+
+(* the premise of c01_generated_roundtrip_single_partial is satisfiable non-trivially: two cut gates marked in one
+   circuit, two commuting groups, the four joint maps: 4 x 2 = 8 subexperiments, coefficients +-1/2 *)
+Example c01_ex_single_premise :
+  exists l cq,
+    generate 20 21 Ex2.env Ex2.cenv
+      (CSingle (mkMC 2 0 [] [ mkI (Gate 1) [0] []; mkI (Qpd2 0 None None) [0; 1] []; mkI (Qpd2 1 None None) [1; 0] [] ]))
+      (OPaulis (Ok [mkOG [3; 1] [0; 1]; mkOG [2; 2] [0; 1]])) NPosInf Ex2.W = Ok (OutList l, cq) /\
+    length l = 8 /\ length cq = 4.
+Proof. eexists. eexists. split; [vm_compute; reflexivity|]. split; reflexivity. Qed.
+
+(* the refusal on the whole first stage, F4 witness: h 0; cx 0 1 on three qubits, automatic labels; ZZZ is Refused,
+   IZZ is answered (letters by qubit index) *)
+Example c01_ex_idle_problem :
+  let bo := fun o : op => match o with Gate 1 => Some (0, Some (5, None)) | _ => None end in
+  let rl := fun l : qlabel => match l with Some (b, _) => b | None => 9 end in
+  let c := [mkI (Gate 0) [0] []; mkI (Gate 1) [0; 1] []] in
+  partition_problem bo rl expand_qpd2 3 0 0 c None (Some [mkP 0 [3; 3; 3]]) = Refused /\
+  is_ok (partition_problem bo rl expand_qpd2 3 0 0 c None (Some [mkP 0 [3; 3; 0]])) = true /\
+  nth 2 (labels_used 3 c None) None = None.
+Proof. repeat split; reflexivity. Qed.
 
 (* the idle rule on the F4 witness class: labels A A None; IZZ is accepted, ZZZ refused (letters by qubit index) *)
 Example c01_ex_idle :
@@ -694,19 +884,22 @@ Print Assumptions c01_generated_layout.
 Print Assumptions c01_projection_lists.
 Print Assumptions c01_generated_roundtrip_dict_partial.
 Print Assumptions c01_generated_roundtrip_single_partial.
+Print Assumptions c01_generated_roundtrip_c04_partial.
 Print Assumptions c01_expansion.
 Print Assumptions c01_listed_samples.
 Print Assumptions c01_roundtrip_public_partial.
 Print Assumptions c01_unseparated_partial.
 Print Assumptions c01_identity_projection.
-Print Assumptions c01_subcutoff.
+Print Assumptions c01_subcutoff_partial.
 Print Assumptions c01_weights_from_c04.
 Print Assumptions c01_idle_refusal.
+Print Assumptions c01_idle_refused.
 Print Assumptions c01_idle_rule.
 Print Assumptions c01_checker_sound.
 Print Assumptions c01_hyps_satisfiable.
 Print Assumptions c01_ex_roundtrip.
 Print Assumptions c01_ex_generated.
+Print Assumptions c01_ex_chain.
 
 (* ---------------- tie to the source (regenerated facts) ---------------- *)
 From CKT Require Import Extracted.Facts.
